@@ -16,6 +16,7 @@ def main(tier):
     roots2d = [f for f in pure.query_roots(P) if f.params and 'array<double, 2>' in P.d(f.params[0]).get('t', '')]
     rep.floor('PURE.roots2d', len(roots2d), 5, '2D entry points')
     pure.run(P, rep, roots2d)
+    pure.no_swallow(P, rep, roots2d + [f for f in pure.query_roots(P) if f.name.endswith('_2d')])
     rep.assumptions.append("equality of the 2D and 3D answers beyond 'same callee, mapped arguments, projected velocity' is not decided")
     rep.explanation = ("Algebraic form of the cross-section direction and of the 2D->3D point map in both coordinate systems, "
                        "release-active refusal as first statement, width-table agreement of the 2D slot walker, velocity "
